@@ -82,11 +82,17 @@ def holder(func, call):
     return None
 
 
+def _is_unsigned(n):
+    t = (n.get('ct') or '')
+    return t.startswith('unsigned') or t in ('size_t', 'uintptr_t', 'uint32_t', 'uint64_t', 'uint16_t', 'uint8_t')
+
+
 def compare_edges(block, is_x):
     """For a two-way branch whose (effective) condition compares X (recognised by
     is_x on stripped nodes) with an integer constant c: returns (c, eq_edge, ne_edge)
     where eq_edge is the successor index (0 true / 1 false) taken when X == c.
-    For `<`/`>=` style tests returns None.  A bare `X` / `!X` is X != 0 / X == 0."""
+    Relational tests of an unsigned X against 0/1 count as (in)equality with 0; other `<`/`>=`
+    tests return None.  A bare `X` / `!X` is X != 0 / X == 0."""
     c = strip(block.cond) if block.cond is not None else None
     if c is None or len(block.all_succs) != 2:
         return None
@@ -104,6 +110,23 @@ def compare_edges(block, is_x):
             return None
         eq_true = (c['op'] == '==') != neg
         return (r['v'], 0 if eq_true else 1, 1 if eq_true else 0)
+    if c.k == 'BinaryOperator' and c['op'] in ('<', '>', '<=', '>='):
+        # an unsigned X against 0/1 is an (in)equality with 0: X>0, X>=1, 0<X, 1<=X  <=>  X != 0
+        l, r = strip(c.ch[0]), strip(c.ch[1])
+        op = c['op']
+        if is_x(r) and not is_x(l):
+            l, r = r, l
+            op = {'<': '>', '>': '<', '<=': '>=', '>=': '<='}[op]
+        if not is_x(l) or 'v' not in r.d or not _is_unsigned(l):
+            return None
+        if (op, r['v']) in (('>', 0), ('>=', 1)):
+            ne_true = True
+        elif (op, r['v']) in (('<', 1), ('<=', 0)):
+            ne_true = False
+        else:
+            return None
+        eq_true = (not ne_true) != neg
+        return (0, 0 if eq_true else 1, 1 if eq_true else 0)
     if is_x(c):
         # `if (X)`: true edge X != 0
         eq_true = neg
